@@ -276,25 +276,26 @@ pub open spec fn ref8_at(r: Seq<u8>, o: int) -> Dimensions {
     Dimensions { start: (u16_at(r, o) as u32, u16_at(r, o + 4) as u32), end: (u16_at(r, o + 2) as u32, u16_at(r, o + 6) as u32) }
 }
 pub open spec fn merge_cmcs(r: Seq<u8>) -> int { u16_at(r, 0) }
-/// a record body holds its declared regions ([MS-XLS] 2.1.4: a record body is at most 65535 bytes)
-pub open spec fn merge_wf(r: Seq<u8>) -> bool { r.len() >= 2 && r.len() >= 2 + 8 * merge_cmcs(r) && r.len() <= 65535 }
+/// a record body holds its declared regions
+pub open spec fn merge_wf(r: Seq<u8>) -> bool { r.len() >= 2 && r.len() >= 2 + 8 * merge_cmcs(r) }
 pub open spec fn merge_regions(r: Seq<u8>) -> Seq<Dimensions> { Seq::new(merge_cmcs(r) as nat, |k: int| ref8_at(r, 2 + 8 * k)) }
-// TRUSTED: proved in unit xlsrec (C17.merge_ok, merge_count, merge_frame, merge_regions -- the same four facts, written as one equation)
+// TRUSTED: proved in unit xlsrec (C17.merge_len_guard: Err exactly when the body does not hold its declared regions; merge_count, merge_frame,
+// merge_regions -- written as one equation)
 #[verifier::external_body] fn parse_merge_cells(r: &[u8], merge_cells: &mut Vec<Dimensions>) -> (res: Result<(), XlsError>)
     ensures
         merge_wf(r@) ==> res is Ok && final(merge_cells)@ == old(merge_cells)@ + merge_regions(r@),
-        res is Err ==> not_password(res),
+        !merge_wf(r@) ==> not_password(res),
 { unimplemented!() }
 /// [MS-XLS] 2.4.175 MulRk: rw (2), colFirst (2), rgrkrec: (colLast - colFirst + 1) RkRec of 6 bytes, colLast (2)
 pub open spec fn mulrk_wf(r: Seq<u8>) -> bool {
-    r.len() >= 6 && u16_at(r, 2) <= u16_at(r, r.len() - 2) && r.len() == 6 + 6 * (u16_at(r, r.len() - 2) - u16_at(r, 2) + 1) && r.len() <= 65535
+    r.len() >= 6 && u16_at(r, 2) <= u16_at(r, r.len() - 2) && r.len() == 6 + 6 * (u16_at(r, r.len() - 2) - u16_at(r, 2) + 1)
 }
 // TRUSTED: proved in unit xlsrec (C02.mulrk_ok, mulrk_count, mulrk_frame, mulrk_cells: for a well-formed record exactly the run's cells are
-// appended, `mulrk_cells` being the sequence characterised there by mulrk_cell_ok; C02.mulrk_err_frame)
+// appended, `mulrk_cells` being the sequence characterised there by mulrk_cell_ok; C02.mulrk_err_iff_malformed: Err exactly otherwise)
 #[verifier::external_body] fn parse_mul_rk(r: &[u8], cells: &mut Vec<Cell<Data>>, formats: &[CellFormat], is_1904: bool) -> (res: Result<(), XlsError>)
     ensures
         mulrk_wf(r@) ==> res is Ok && final(cells)@ == old(cells)@ + mulrk_cells(r@, formats@, is_1904),
-        res is Err ==> not_password(res),
+        !mulrk_wf(r@) ==> not_password(res),
 { unimplemented!() }
 #[verifier::external_body] fn parse_string(r: &[u8], encoding: &XlsEncoding, biff: Biff) -> (res: Result<String, XlsError>)
     ensures ret(res, string_of(r@, *encoding, biff)),
@@ -323,8 +324,8 @@ pub open spec fn mulrk_wf(r: Seq<u8>) -> bool {
     ensures ret(res, format_of(old(r).v(), *encoding)),
 { unimplemented!() }
 // the Lbl (defined name) record is read in place; the decoded name is not pinned down by this unit
+// TRUSTED: unit xlsstr (read_unicode_string_no_cch is an entry point there: no precondition, never panics)
 #[verifier::external_body] fn read_unicode_string_no_cch(encoding: &XlsEncoding, buf: &[u8], len: &usize, s: &mut String)
-    requires buf@.len() > *len,
 { unimplemented!() }
 #[verifier::external_body] fn parse_defined_names(rgce: &[u8]) -> (res: Result<(Option<usize>, String), XlsError>)
     ensures ret(res, defined_name_of(rgce@)),
@@ -485,21 +486,14 @@ pub open spec fn merges_of(rs: Seq<RecV>) -> Seq<Dimensions>
 {
     if rs.len() == 0 { Seq::empty() } else if rs.last().typ == 0x00E5 { merges_of(rs.drop_last()) + merge_regions(rs.last().data) } else { merges_of(rs.drop_last()) }
 }
-/// side conditions under which the walkers' contracts (unit xlsrec) say what is appended
-pub open spec fn mulrk_legal(rs: Seq<RecV>) -> bool { forall|i: int| 0 <= i < rs.len() && (#[trigger] rs[i]).typ == 0x00BD ==> mulrk_wf(rs[i].data) }
-pub open spec fn merge_legal(rs: Seq<RecV>) -> bool { forall|i: int| 0 <= i < rs.len() && (#[trigger] rs[i]).typ == 0x00E5 ==> merge_wf(rs[i].data) }
 proof fn lemma_legal_push(rs: Seq<RecV>, v: RecV)
     ensures
-        merge_legal(rs.push(v)) == (merge_legal(rs) && (v.typ == 0x00E5 ==> merge_wf(v.data))),
-        mulrk_legal(rs.push(v)) == (mulrk_legal(rs) && (v.typ == 0x00BD ==> mulrk_wf(v.data))),
         d1904_legal(rs.push(v)) == (d1904_legal(rs) && (is_date1904(v) ==> le16(v.data) <= 1)),
         has_1904(rs.push(v)) == (has_1904(rs) || (is_date1904(v) && le16(v.data) == 1)),
 {
     let p = rs.push(v);
     assert(p[rs.len() as int] == v);
     assert forall|i: int| 0 <= i < rs.len() implies #[trigger] p[i] == rs[i] by {}
-    if merge_legal(p) { assert forall|i: int| 0 <= i < rs.len() && (#[trigger] rs[i]).typ == 0x00E5 implies merge_wf(rs[i].data) by { assert(p[i] == rs[i]); } }
-    if mulrk_legal(p) { assert forall|i: int| 0 <= i < rs.len() && (#[trigger] rs[i]).typ == 0x00BD implies mulrk_wf(rs[i].data) by { assert(p[i] == rs[i]); } }
     if d1904_legal(p) { assert forall|i: int| 0 <= i < rs.len() && is_date1904(#[trigger] rs[i]) implies le16(rs[i].data) <= 1 by { assert(p[i] == rs[i]); } }
     if has_1904(rs) {
         let i = choose|i: int| 0 <= i < rs.len() && is_date1904(#[trigger] rs[i]) && le16(rs[i].data) == 1;
@@ -528,12 +522,12 @@ spec fn sheets_dom(m: Map<String, SheetData>, list: Seq<(usize, String)>, stream
 }
 /// C17: every sheet's merged regions are those of ITS substream
 spec fn sheets_merges(m: Map<String, SheetData>, list: Seq<(usize, String)>, stream: Seq<u8>) -> bool {
-    forall|n: String| #[trigger] model(list, stream).contains_key(n) && merge_legal(recs(model(list, stream)[n])) ==>
+    forall|n: String| #[trigger] model(list, stream).contains_key(n) ==>
         m[n].merge_cells@ == merges_of(recs(model(list, stream)[n]))
 }
 /// C02: every sheet's range is from_sparse of the cells of ITS substream
 spec fn sheets_cells(m: Map<String, SheetData>, list: Seq<(usize, String)>, stream: Seq<u8>, cc: CCtx) -> bool {
-    forall|n: String| #[trigger] model(list, stream).contains_key(n) && mulrk_legal(recs(model(list, stream)[n])) ==>
+    forall|n: String| #[trigger] model(list, stream).contains_key(n) ==>
         m[n].range == sparse_range(cells_of(recs(model(list, stream)[n]), cc))
 }
 /// C14: every sheet's formula range is from_sparse of the formulas of ITS substream
@@ -739,9 +733,9 @@ let fmla_sheet_names = { let mut __out: Vec<String> = Vec::new();
                     cc == (CCtx { formats: self.formats@, is_1904: self.is_1904, strings: strings@, enc: encoding, biff: biff }),
                     fc == (FCtx { names: sviews(fmla_sheet_names@), dn: defined_names@, xtis: xtis@, enc: encoding }),
                     //# C17.merge_regions_appended
-                    merge_legal(sdone) ==> merge_cells@ == merges_of(sdone),
+                    merge_cells@ == merges_of(sdone),
                     //# C02.dispatch_cells
-                    mulrk_legal(sdone) ==> cells@ == cells_of(sdone, cc),
+                    cells@ == cells_of(sdone, cc),
                     //# C02.formula_string_position
                     fmla_pos == fmla_pos_of(sdone),
                     //# C14.formulas_at_cells
@@ -784,13 +778,13 @@ let fmla_sheet_names = { let mut __out: Vec<String> = Vec::new();
                     //# C02.dispatch_labelsst
                     assert(v.typ == 0x00FD ==> cells@ == cells_in + contrib(v, fpos, cc));
                     //# C02.dispatch_mulrk
-                    assert(v.typ == 0x00BD && mulrk_wf(v.data) ==> cells@ == cells_in + contrib(v, fpos, cc));
+                    assert(v.typ == 0x00BD ==> cells@ == cells_in + contrib(v, fpos, cc));
                     //# C02,C14.dispatch_formula_cached_value
                     assert(is_formula(v) ==> cells@ == cells_in + contrib(v, fpos, cc));
                     //# C14.dispatch_formula_text_at_cell
                     assert(is_formula(v) ==> formulas@.len() == formulas_in.len() + 1 && formulas@.last().p() == formula_pos(v.data) && fmla_pos == formula_pos(v.data));
                     //# C17.dispatch_mergecells
-                    assert(v.typ == 0x00E5 && merge_wf(v.data) ==> merge_cells@ == merges_in + merge_regions(v.data));
+                    assert(v.typ == 0x00E5 ==> merge_cells@ == merges_in + merge_regions(v.data));
                     //# C02.unknown_ids_contribute_nothing
                     assert(!dispatched(v.typ) ==> cells@ == cells_in && formulas@ == formulas_in && merge_cells@ == merges_in && fmla_pos == fpos);
                 }
@@ -822,11 +816,11 @@ let fmla_sheet_names = { let mut __out: Vec<String> = Vec::new();
                     else { assert(m0.contains_key(n)); assert(sheets@[n] == sheets_in[n]); }
                 }
                 //# C17.merge_regions_stored_under_sheet_name
-                assert forall|n: String| #[trigger] m1.contains_key(n) && merge_legal(recs(m1[n])) implies sheets@[n].merge_cells@ == merges_of(recs(m1[n])) by {
+                assert forall|n: String| #[trigger] m1.contains_key(n) implies sheets@[n].merge_cells@ == merges_of(recs(m1[n])) by {
                     if n != name { assert(m0.contains_key(n)); assert(sheets@[n] == sheets_in[n]); }
                 }
                 //# C02.cells_stored_under_sheet_name
-                assert forall|n: String| #[trigger] m1.contains_key(n) && mulrk_legal(recs(m1[n])) implies sheets@[n].range == sparse_range(cells_of(recs(m1[n]), cc)) by {
+                assert forall|n: String| #[trigger] m1.contains_key(n) implies sheets@[n].range == sparse_range(cells_of(recs(m1[n]), cc)) by {
                     if n != name { assert(m0.contains_key(n)); assert(sheets@[n] == sheets_in[n]); }
                 }
             }
@@ -848,9 +842,6 @@ proof fn witness_requires() {
     assert(rows_sorted(Seq::<Cell<Data>>::empty()));
     let c = Cell::<Data>::mk((3u32, 1u32), Data::Empty);
     assert(rows_sorted(seq![c]));
-    // read_unicode_string_no_cch: buf@.len() > *len -- a 1-character compressed name: flags byte + 1 byte, len 1
-    let buf = seq![0u8, 0x41u8];
-    assert(buf.len() > 1);
     // <[T]>::chunks: n != 0 -- the only call site passes 6
     assert(6usize != 0);
     // read_u16 / read_i16 (common/bytes.rs): a 2-byte slice
